@@ -617,6 +617,90 @@ def del_subscript(E, base, idx, node, fr):
 
 
 # ------------------------------------------------------------------------------------------------
+def declared_fields(cd):
+    """field names the sidecar declares for a class, over all its typestate shapes"""
+    out = set()
+    for k, d in CLASSES.items():
+        if k == cd.key or k.startswith(cd.key + "@"):
+            out.update(d.fields)
+            out.update(getattr(d, "consts", {}) or {})
+            out.update(getattr(d, "virtual", {}) or {})
+    return out
+
+
+def infer_attr_type(E, clskey, attr):
+    """Type of an undeclared instance attribute, read off the class's own source: every assignment `self.attr = e`
+    in the class must give the same simple immutable type (bytes / int / str / bool), and `__init__` must assign it."""
+    mk = find_method(E, clskey, "__init__")
+    if mk is None:
+        return None
+    init, _, clsnode = E.repo.find(mk)
+    if clsnode is None:
+        return None
+
+    def ty_of(e, fn):
+        if isinstance(e, ast.Constant):
+            return {bytes: TBytes, int: TInt, str: TStr, bool: TBool}.get(type(e.value))
+        if isinstance(e, ast.Attribute) and isinstance(e.value, ast.Name) and e.value.id == "self" and e.attr == attr:
+            return "same"
+        if isinstance(e, ast.Name):
+            for a in fn.args.args + fn.args.kwonlyargs:
+                if a.arg == e.id and isinstance(a.annotation, ast.Name):
+                    return {"bytes": TBytes, "int": TInt, "str": TStr, "bool": TBool}.get(a.annotation.id)
+            if depth[0] < 4:      # a local: every assignment to it in this function gives the same type
+                depth[0] += 1
+                try:
+                    ts = {ty_of(n.value, fn) for n in ast.walk(fn) if isinstance(n, ast.Assign) and len(n.targets) == 1
+                          and isinstance(n.targets[0], ast.Name) and n.targets[0].id == e.id}
+                    others = [n for n in ast.walk(fn) if isinstance(n, ast.Name) and n.id == e.id and isinstance(n.ctx, ast.Store)]
+                    return ts.pop() if len(ts) == 1 and len(others) == 1 else None
+                finally:
+                    depth[0] -= 1
+            return None
+        if isinstance(e, ast.Call):
+            f = e.func
+            nm = f.attr if isinstance(f, ast.Attribute) else getattr(f, "id", None)
+            return {"urandom": TBytes, "bytes": TBytes, "len": TInt, "int": TInt, "str": TStr}.get(nm)
+        if isinstance(e, (ast.BoolOp,)):
+            ts = {ty_of(v, fn) for v in e.values} - {"same"}
+            return ts.pop() if len(ts) == 1 else None
+        if isinstance(e, ast.BinOp):
+            if isinstance(e.op, (ast.FloorDiv, ast.Sub, ast.LShift, ast.RShift)) and TInt in (ty_of(e.left, fn), ty_of(e.right, fn)):
+                return TInt       # these operators have no bytes / str reading
+            ts = {ty_of(e.left, fn), ty_of(e.right, fn)} - {"same"}
+            if not ts:
+                return "same"
+            return ts.pop() if len(ts) == 1 and None not in ts else None
+        if isinstance(e, ast.Subscript) and isinstance(e.slice, ast.Slice):
+            return ty_of(e.value, fn)
+        if isinstance(e, ast.IfExp):
+            ts = {ty_of(e.body, fn), ty_of(e.orelse, fn)} - {"same"}
+            return ts.pop() if len(ts) == 1 else None
+        return None
+
+    found, in_init, depth = set(), False, [0]
+    for fn in clsnode.body:
+        if not isinstance(fn, (ast.FunctionDef, ast.AsyncFunctionDef)):
+            continue
+        for n in ast.walk(fn):
+            tgts, val = [], None
+            if isinstance(n, ast.Assign):
+                tgts, val = n.targets, n.value
+            elif isinstance(n, (ast.AugAssign, ast.AnnAssign)):
+                tgts, val = [n.target], n.value
+            for t in tgts:
+                for t1 in (t.elts if isinstance(t, ast.Tuple) else [t]):
+                    if isinstance(t1, ast.Attribute) and isinstance(t1.value, ast.Name) and t1.value.id == "self" and t1.attr == attr:
+                        if isinstance(t, ast.Tuple) or val is None:
+                            return None
+                        found.add(ty_of(val, fn))
+                        in_init = in_init or fn is init
+    found.discard("same")
+    if not in_init or len(found) != 1 or None in found:
+        return None
+    return found.pop()
+
+
 def get_attr(E, obj, attr, fr, node):
     line = getattr(node, "lineno", 0)
     if isinstance(obj, Ref):
@@ -645,6 +729,14 @@ def get_attr(E, obj, attr, fr, node):
                 raise Unsupported("no field %s on %s" % (attr, cd.key))
             if attr in cd.fields:
                 raise PyRaise("AttributeError", line)
+            ty = infer_attr_type(E, cd.key, attr)
+            if ty is not None:
+                # a field the sidecar does not declare (added by a later change of the repository): its value is
+                # whatever a value of the type every assignment in the class gives it can be -- no invariant assumed
+                v = E.fresh("%s.%s" % (cd.name, attr), ty)
+                E.setcell(obj, (kind, cd, dict(fields, **{attr: v})))
+                E.dropped.append("undeclared field %s.%s read as an arbitrary %s" % (cd.name, attr, ty))
+                return v
             raise Unsupported("attribute %s of %s not declared" % (attr, cd.key))
         if c[0] == "ext":
             for h in EXT_ATTR:
@@ -1150,7 +1242,13 @@ def call_function(E, key, args, kwargs, fr, node):
             key, [env.get(p) for p in CONTRACTS[variants[0]].params], getattr(node, "lineno", 0)))
     if key in INLINE or key.endswith(".__init__") and key.rsplit(".", 1)[0] in AUTO_INIT:
         return call_inline(E, key, fnode, mod, clsnode, args, kwargs, fr, node)
-    raise Unsupported("call of %s: no contract and not inlined (line %d)" % (key, getattr(node, "lineno", 0)))
+    # a repository function nobody wrote a contract for (typically a helper split off by a refactoring) is executed in
+    # place: exact, so neither a source of false alarms nor of missed ones; recursion and loops without an invariant
+    # still leave the subset.  Listed in the evidence under `auto_inlined`.
+    if key in E.inline_stack:
+        raise Unsupported("call of %s: recursive and without contract (line %d)" % (key, getattr(node, "lineno", 0)))
+    E.auto_inlined.add(key)
+    return call_inline(E, key, fnode, mod, clsnode, args, kwargs, fr, node)
 
 
 AUTO_INIT = set()
@@ -1239,8 +1337,17 @@ def call_contract(E, c, key, fnode, mod, clsnode, args, kwargs, fr, node):
                                               for f, t in cd.fields.items() if t != TAny}))
                 else:
                     E.setcell(v, E.havoc_cell(short + "." + m, cell))
+        # private state: fields no sidecar declaration mentions may be changed by any callee (no contract can speak
+        # about them); what the caller knew about them is forgotten
+        if not E.spec_mode:
+            for v in env.values():
+                if isinstance(v, Ref):
+                    for cid in E.reachable(v):
+                        cl = E.cell(Ref(cid))
+                        if cl[0] == "obj" and cl[2] and any(f not in declared_fields(cl[1]) for f in cl[2]):
+                            E.setcell(Ref(cid), (cl[0], cl[1], {f: x for f, x in cl[2].items() if f in declared_fields(cl[1])}))
         for g in c.modifies_ghost:
-            E.ghostv[g] = E.fresh("ghost_" + g, E.ghostv[g].ty)
+            E.havoc_ghost(g)
         for p_, st_ in (c.becomes.items() if raised_exc is None else ()):
             v = env.get(p_)
             if isinstance(v, Ref):
